@@ -75,6 +75,8 @@ type WorkerOut struct {
 	Workloads   int               `json:"distinct_workloads"`
 	Skipped     map[string]int    `json:"skipped"`
 	RaceEnabled bool              `json:"race_enabled"`
+	NextN       int               `json:"next_n"`                           // first run number this process did not execute
+	Recycle     bool              `json:"recycle"`                          // stopped early because the process grew too large; the driver starts a fresh one at next_n
 	AutoOps     []string          `json:"auto_discovered_methods"`          // public methods outside the hand-written catalogue, exercised by reflection (C01)
 	AutoSkipped []string          `json:"undiscoverable_methods,omitempty"` // outside the catalogue and not callable with generated arguments
 }
@@ -178,8 +180,20 @@ func explore(t *testing.T, selftest bool) {
 	works := map[uint64]struct{}{}
 	start := time.Now()
 	newSigAt := make([]int, 0, 1024) // run number at which each new signature appeared (for saturation)
-	for n := 0; n < maxRuns; n++ {
+	// The race runtime's own memory grows with the number of goroutines a process has ever created
+	// (about 50 KB per simulated run with timers; it is C memory the Go collector cannot return), so
+	// a worker stops when it has grown past VERIF_MAX_RSS_MB and the driver continues the same run
+	// numbers in a fresh process.
+	startN := int(envInt("VERIF_START_N", 0))
+	maxRSS := envInt("VERIF_MAX_RSS_MB", 800)
+	w.NextN = maxRuns
+	for n := startN; n < maxRuns; n++ {
 		if time.Since(start) > budget {
+			w.NextN = n
+			break
+		}
+		if !selftest && n%256 == 255 && rssMB() > maxRSS {
+			w.NextN, w.Recycle = n, true
 			break
 		}
 		idx := uint64(worker) + uint64(n)*uint64(workers)
@@ -253,6 +267,20 @@ func explore(t *testing.T, selftest bool) {
 			os.Exit(2)
 		}
 	}
+}
+
+// rssMB is the resident set size of this process in MB (0 if it cannot be read).
+func rssMB() int64 {
+	b, err := os.ReadFile("/proc/self/statm")
+	if err != nil {
+		return 0
+	}
+	f := strings.Fields(string(b))
+	if len(f) < 2 {
+		return 0
+	}
+	pages, _ := strconv.ParseInt(f[1], 10, 64)
+	return pages * int64(os.Getpagesize()) >> 20
 }
 
 func writeSigs(path string, sigs map[uint64]struct{}) {
